@@ -185,7 +185,12 @@ func c16Run(e *Env, c *c16Case) error {
 				Consumed int  `json:"consumed"`
 			} `json:"out"`
 		}
-		if err := e.Drv.Call(map[string]interface{}{"m": "rlimit", "L": L, "frames": frames, "avail": len(stream), "reads": reads}, &r); err != nil {
+		kinds := make([]string, len(c.Sizes))
+		for i := range c.Sizes {
+			kinds[i] = kindOf(i)
+		}
+		// the model threads the budget through the connection and renews it by the policy read from the source
+		if err := e.Drv.Call(map[string]interface{}{"m": "rlimit", "L": L, "frames": frames, "kinds": kinds, "avail": len(stream), "reads": reads}, &r); err != nil {
 			return err
 		}
 		same := len(r.Out) == len(obs)
